@@ -446,6 +446,9 @@ type Interp struct {
 	nest     int // current if-conversion nesting
 	pdom     map[*ssa.Function]map[*ssa.BasicBlock]*ssa.BasicBlock
 	Models   map[string]func(it *Interp, st *state, call *ssa.CallCommon, args []Value) (Value, bool)
+	// Obligations: side conditions a model relied on (e.g. "this number has two decimal digits");
+	// the property code must show each of them valid under its premise.
+	Obligations []*Node
 	// ReadOnlyTables names the global objects ("global:sr") that may be read at a symbolic index;
 	// such a read is an uninterpreted function of the index bits (opApp).
 	ReadOnlyTables map[string]bool
@@ -1032,6 +1035,16 @@ func (it *Interp) mux(c *Node, a, b Value) Value {
 		if y, ok := b.(StrV); ok && x.Known && y.Known && x.S == y.S {
 			return x
 		}
+		if y, ok := b.(StrV); ok && (x.Known || x.Sym) && (y.Known || y.Sym) {
+			cx, _ := toCharsOf(it, x)
+			cy, _ := toCharsOf(it, y)
+			x, y = StrV{Sym: true, Chars: cx}, StrV{Sym: true, Chars: cy}
+			_ = y
+		}
+		if y, ok := b.(StrV); ok && (y.Known || y.Sym) {
+			cy, _ := toCharsOf(it, y)
+			b = StrV{Sym: true, Chars: cy}
+		}
 		if y, ok := b.(StrV); ok && x.Sym && y.Sym && len(x.Chars) == len(y.Chars) {
 			// character-wise mux of two symbolic strings of the same length
 			out := StrV{Sym: true}
@@ -1336,7 +1349,9 @@ func (it *Interp) step(st *state, ins ssa.Instruction, depth int) {
 				st.regs[x] = OpaqueV{"neg"}
 				return
 			}
-			st.regs[x] = it.sub(it.constBV(0, b.W), b)
+			neg := it.sub(it.constBV(0, b.W), b)
+			neg.Signed = b.Signed
+			st.regs[x] = neg
 		default:
 			it.unsup("unary op %s", x.Op)
 			st.regs[x] = OpaqueV{"unop"}
@@ -1731,6 +1746,29 @@ func (it *Interp) binop(x *ssa.BinOp, a, b Value) Value {
 					}
 					if la != lb {
 						eq = 0
+					} else {
+						// same length: character-wise equality
+						ca, okA := toCharsOf(it, sa)
+						cb2, okB := toCharsOf(it, sb)
+						if okA && okB {
+							all := it.T.one
+							decided := true
+							for i := range ca {
+								if ca[i].Hex != nil || cb2[i].Hex != nil || ca[i].HasTop() || cb2[i].HasTop() {
+									decided = false
+									break
+								}
+								for k := 0; k < 8; k++ {
+									all = it.T.And(all, it.T.Not(it.T.Xor(ca[i].B[k], cb2[i].B[k])))
+								}
+							}
+							if decided {
+								if x.Op == token.NEQ {
+									all = it.T.Not(all)
+								}
+								return BV{W: 1, B: []*Node{all}}
+							}
+						}
 					}
 				}
 			}
@@ -1862,6 +1900,26 @@ func (it *Interp) binop(x *ssa.BinOp, a, b Value) Value {
 				return res(q)
 			}
 			return res(rm)
+		}
+		// signed dividend of unknown sign, positive constant divisor: Go truncates toward zero
+		if (x.Op == token.QUO || x.Op == token.REM) && bConst && cb != 0 && av.Signed && !av.HasTop() && toSigned(cb, bv) > 0 {
+			sgn := av.B[av.W-1]
+			neg := it.sub(it.constBV(0, av.W), av)
+			abs := BV{W: av.W, B: make([]*Node, av.W)}
+			for i := range abs.B {
+				abs.B[i] = it.T.Mux(sgn, neg.B[i], av.B[i])
+			}
+			q, rm := it.udivConst(abs, cb)
+			pick := q
+			if x.Op == token.REM {
+				pick = rm
+			}
+			np := it.sub(it.constBV(0, av.W), pick)
+			out := BV{W: av.W, B: make([]*Node, av.W)}
+			for i := range out.B {
+				out.B[i] = it.T.Mux(sgn, np.B[i], pick.B[i])
+			}
+			return res(out)
 		}
 		// multiplication / division by a power of two
 		if bConst && cb != 0 && cb&(cb-1) == 0 && (nonNeg(av) || x.Op == token.MUL) {
@@ -2009,6 +2067,21 @@ func (it *Interp) udivConst(a BV, c uint64) (BV, BV) {
 		r.B[k] = rem.B[k]
 	}
 	return q, r
+}
+
+// toCharsOf: the characters of a known or symbolic string as octet words.
+func toCharsOf(it *Interp, s StrV) ([]BV, bool) {
+	if s.Sym {
+		return s.Chars, true
+	}
+	if s.Known {
+		var out []BV
+		for i := 0; i < len(s.S); i++ {
+			out = append(out, it.constBV(uint64(s.S[i]), 8))
+		}
+		return out, true
+	}
+	return nil, false
 }
 
 // ult: a < b, unsigned.
@@ -2314,8 +2387,6 @@ func (it *Interp) stdModel(st *state, name string, c *ssa.CallCommon, args []Val
 		return r, true
 	case "fmt.Errorf", "errors.New":
 		return ErrV{it.T.zero}, true
-	case "fmt.Sprintf":
-		return OpaqueV{"formatted"}, true
 	}
 	if strings.HasPrefix(name, "(*github.com/sirupsen/logrus.Entry).") {
 		return OpaqueV{"log"}, true
